@@ -24,4 +24,9 @@ theorem exit_status_exact_current :
   rw [current_source_status_decoder]
   exact ⟨JanetModel.Props.C16.exit_status_exact.1, JanetModel.Props.C16.exit_status_exact.2.1⟩
 
+/-- the current source moves redirection sources that are standard descriptors above 2 before it builds the file
+    actions (a3cd080) — the fact `Safe` rests on for `{:err stdout}`-style requests; on a tree without the loop this does
+    not build and `std_source_unmoved_loses_descriptor` is the witness that replays on the implementation -/
+theorem current_source_moves_std_sources : Gen.ProcStat.movesStdSources = true := by decide
+
 end JanetModel.Proc.Current
